@@ -423,7 +423,11 @@ fn main() {
                 res.push_str(&*format!(
                     "
     state = {};",
-                    codes.len(),
+                    if codes.last().unwrap().is_empty() {
+                        codes.len() - 1
+                    } else {
+                        codes.len()
+                    },
                 ));
             }
             if !codes.last().unwrap().is_empty() {
